@@ -25,14 +25,34 @@ func ZZ_C04() {
 	// pre-state: each key free or already bound to some transaction
 	bound := make([]bool, nk)
 	owner := make([]crypto.Hash, nk)
+	stored := make([]bool, nk)
 	for i, k := range keys {
 		if i > 0 && *keys[i] == *keys[0] {
-			bound[i], owner[i] = bound[0], owner[0]
+			bound[i], owner[i], stored[i] = bound[0], owner[0], stored[0]
 			continue
 		}
 		if vr.Bool() {
 			bound[i] = true
-			owner[i] = zzHash()
+			// the owner is a bare reservation, a stored but unfinalized transaction, or a finalized one
+			switch vr.Choose(0, 2) {
+			case 0:
+				owner[i] = zzHash()
+				vr.Cover("owner-reservation-only")
+			case 1:
+				otx := zzOwnerTx(k, byte(i))
+				owner[i] = otx.PayloadHash()
+				vr.Assert(s.ZZPutTransaction(otx) == nil, "setup-owner-body")
+				stored[i] = true
+				vr.Cover("owner-pending-with-body")
+			default:
+				otx := zzOwnerTx(k, byte(i))
+				owner[i] = otx.PayloadHash()
+				vr.Assert(s.ZZPutTransaction(otx) == nil, "setup-owner-body")
+				fin := zzHash()
+				zzSet(s, graphFinalizationKey(owner[i]), fin[:])
+				stored[i] = true
+				vr.Cover("owner-finalized")
+			}
 			vr.Assume(owner[i].HasValue())
 			zzSet(s, graphGhostKey(*k), owner[i][:])
 		}
@@ -87,6 +107,9 @@ func ZZ_C04() {
 			vr.Assert(bytes.Equal(by, owner[i][:]), "existing-binding-never-overwritten")
 			// ... and a different transaction is only let through for the three historical exceptions
 			vr.Assert(owner[i] == tx || (fork && exception), "key-of-another-transaction-is-refused")
+			if stored[i] {
+				vr.Assert(zzHas(s, graphTransactionKey(owner[i])), "owner-transaction-body-kept")
+			}
 		} else {
 			vr.Assert(bytes.Equal(by, tx[:]), "free-key-bound-to-this-transaction")
 		}
@@ -95,4 +118,17 @@ func ZZ_C04() {
 		_, ok := zzGet(s, graphUtxoKey(tx, 0))
 		vr.Assert(ok, "output-materialised")
 	}
+}
+
+// zzOwnerTx: a small transaction paying to key k (its hash is a function of a symbolic extra byte).
+func zzOwnerTx(k *crypto.Key, seq byte) *common.VersionedTransaction {
+	tx := common.Transaction{Version: common.TxVersionHashSignature, Asset: common.XINAssetId}
+	var in crypto.Hash
+	in[0], in[1] = 0x77, seq
+	tx.Inputs = []*common.Input{{Hash: in, Index: 0}}
+	var mask crypto.Key
+	mask[0] = 0x55
+	tx.Outputs = []*common.Output{{Type: common.OutputTypeScript, Amount: common.NewInteger(1), Keys: []*crypto.Key{k}, Mask: mask, Script: common.NewThresholdScript(1)}}
+	tx.Extra = []byte{vr.U8()}
+	return &common.VersionedTransaction{SignedTransaction: common.SignedTransaction{Transaction: tx}}
 }
